@@ -172,9 +172,18 @@ class Problem:
             if resume_from is not None:
                 kw["resume_from"] = resume_from
         elif s == "minipcn":
-            kw.update(n_steps=case["kernel_steps"] + 1, rng=np.random.default_rng(case["seed"]), step_fn="rw")
+            kw.update(n_steps=case["kernel_steps"] + 2, rng=np.random.default_rng(case["seed"]), step_fn="rw")
+            opt = case["seed"] % 4  # chain post-processing options of the MCMC sampler
+            if opt == 1:
+                kw.update(thin=2)
+            elif opt == 2:
+                kw.update(burnin=1)
+            elif opt == 3:
+                kw.update(last_step_only=True)
         elif s == "emcee":
-            kw.update(nsteps=case["kernel_steps"] + 1)
+            kw.update(nsteps=case["kernel_steps"] + 2)
+            if case["seed"] % 2:
+                kw.update(discard=1)
         return kw
 
     def run(self, checkpoint_cb=None, resume_from=None):
